@@ -749,13 +749,30 @@ def verify(prog, fn, bb, sink, spec, _facts_override=None):
         if not callers:
             return False, "no caller of %s found" % rootk
         names = set()
-        for c in callers:
-            a = c.args[spec["param"]] if spec["param"] < len(c.args) else None
-            st = c.fn.origin(a) if a is not None else None
-            if not st or st[-1][0] != "const" or not re.search(spec["callee"], st[-1][1].get("fn") or ""):
+
+        def passed(callee_key, param, depth):
+            """every caller passes a named function matching the regex -- or hands on its own fn-pointer parameter, in which
+            case its callers are asked (a non-public helper, bounded depth)"""
+            cs_ = prog.callers().get(callee_key, [])
+            if not cs_:
+                return False, "no caller of %s found" % callee_key
+            for c in cs_:
+                a = c.args[param] if param < len(c.args) else None
+                st = c.fn.origin(a) if a is not None else None
+                if st and st[-1][0] == "const" and re.search(spec["callee"], st[-1][1].get("fn") or ""):
+                    names.add(st[-1][1]["fn"].rsplit("::", 1)[-1])
+                    continue
+                if st and st[-1][0] == "arg" and not st[-1][2] and all(x[0] in ("via", "arg") for x in st) and depth > 0 and not c.fn.pub:
+                    okr, howr = passed(c.fn.root or c.fn.key, st[-1][1] - 1, depth - 1)
+                    if okr:
+                        continue
+                    return False, howr
                 return False, "caller %s passes %s" % (c.fn.key, describe_origin(c.fn, st))
-            names.add(st[-1][1]["fn"].rsplit("::", 1)[-1])
-        return True, "all %d callers pass a function matching /%s/ (%s)" % (len(callers), spec["callee"], ", ".join(sorted(names)))
+            return True, ""
+        okp, howp = passed(rootk, spec["param"], 2)
+        if not okp:
+            return False, howp
+        return True, "all callers (directly or through a helper that hands its parameter on) pass a function matching /%s/ (%s)" % (spec["callee"], ", ".join(sorted(names)))
     if k == "rejects":
         # a validation branch: on the edge where `x OP const` holds, the sink is unreachable
         want = spec["cmp"]
